@@ -14,6 +14,14 @@ get_definition_*_position / get_line_code transcribed.  Legs:
      re-encoded corpus files is judged by Trace_Positions.tla against the text of the file it
      points into;
   4. binding self-test: corrupted records must be rejected.
+Multi-file / multi-version dimension (spec/PositionsHist.tla, harness/c17hist.py): a project file has versions (disk
+writes with later / equal / older mtime, unsaved buffers); TLC enumerates the small histories of write / buffer / query
+events, the Design is parso's parser cache (one entry per path, reused while mtime <= change_time) + jedi's
+_load_python_module (code lines of the cache entry), the Reference demands that every reported Name fits ONE version
+that existed so far (the buffer itself for the buffer's own Script).  Same four legs: exhaustive run + what-if
+FreshLines (tree of one version, code lines of another: must fail), replay of emitted histories on the real jedi in a
+scratch project with os.utime-controlled mtimes, trace validation (Trace_Positions tracks which versions exist), random
+histories over the generated project, and corrupted history traces in the binding self-test.
 """
 import copy
 import os
@@ -21,11 +29,12 @@ import threading
 
 from harness import jutil
 from harness import c17lib as L
+from harness import c17hist as H
 from harness.core import MachineryError
 from harness.tlc import run_tlc, cases, validate_traces
 
 META = dict(
-    spec='Positions.tla, Trace_Positions.tla',
+    spec='Positions.tla, PositionsText.tla, PositionsHist.tla, Trace_Positions.tla',
     text='TLC checks exhaustively, for every buffer of <=2 statement templates (38 parse-tree templates: '
          'assignments, def/class with decorators, imports, for/with/except, walrus, global/nonlocal, del, lambda, '
          'comprehensions, call/attribute chains, f-string) x identifier rotation over {a, bb, e-acute, CJK, __a} '
@@ -37,12 +46,23 @@ META = dict(
          'the tree shape must equal parso\'s, the reference tokens and binding roles must equal CPython tokenize/ast. '
          'Every Name returned by every query method on those cases, on a generated project (CRLF/CR/tab/FF project '
          'files, cross-module decorators) and on re-encoded corpus files is judged by TLC (Trace_Positions) '
-         'against the text of the file it points into.',
+         'against the text of the file it points into. Versions of a project file: TLC checks exhaustively, for every '
+         'history of <=4 events (disk write of one of 7 versions of hmod.py with mtime later/equal/older, unsaved-buffer '
+         'Script of hmod.py, Script of main.py reaching hmod.py by import (goto/infer/help/signatures/references/complete) or by '
+         'the project file scan (Project.search/complete_search)), that the transcription of parso\'s parser cache and jedi\'s '
+         '_load_python_module reports Names that fit ONE version that existed so far (position, range and get_line_code() of '
+         'the same text; the buffer itself for the buffer\'s own Script), and that the what-if "code lines from a fresh read" '
+         'fails. Emitted histories are replayed on the real jedi (scratch project, mtimes set with os.utime) and compared with '
+         'the model; every Name of those runs and of random histories over the generated project is judged by TLC against '
+         'the versions that existed at that point.',
     note='Trusts TLC, CPython tokenize/ast as oracle for tokens and binding, and the harness reading files with '
          'newline="". Names without an identifier token (modules at (1,0), <lambda>, keywords), names in compiled '
          'or synthetic (path-less) modules and files outside the project are out of scope; sources parso cannot '
          'parse (match, PEP 695, parenthesised with-items, except*) are excluded; queries that raise are counted as '
-         'blocked (C01). Scope filter all_scopes=False is not modelled.',
+         'blocked (C01). Scope filter all_scopes=False is not modelled. Which version a module reached from another '
+         'file must be analysed from (freshness) is not demanded: a stale parser-cache entry (unsaved buffer, older disk '
+         'text with an mtime that is not newer) is tolerated as long as position, range and line code come from one and '
+         'the same version. The pickle cache across processes is not modelled (one history = one process, unique paths).',
     technique='TLA+ spec (Design|=Reference) model-checked with TLC; spec->code replay of emitted cases; '
               'code->spec trace validation of recorded Names',
     design_ref='5/C17')
@@ -132,9 +152,12 @@ def _sig_names(sigs):
     return out
 
 
-def query_all(s, text, path, roots, ids, toks, rng, npos, maxlen=16000):
-    """All query methods at (a sample of) the identifier tokens; -> trace, metas, counts, blocked."""
-    files = {'_roots': roots, '_order': [path], '_maxlen': maxlen, path: (1, text)}
+def query_all(s, text, path, roots, ids, toks, rng, npos, maxlen=16000, files=None):
+    """All query methods at (a sample of) the identifier tokens; -> trace, metas, counts, blocked.
+    files: a file table shared by the events of a history (c17hist); else one is made for this buffer."""
+    own = files is None
+    if own:
+        files = {'_roots': roots, '_order': [path], '_maxlen': maxlen, path: (1, text)}
     counts, blocked = {}, {}
     events, metas = [], []
 
@@ -176,8 +199,7 @@ def query_all(s, text, path, roots, ids, toks, rng, npos, maxlen=16000):
         opens = opens[:npos]
     for tk in opens:
         run('get_signatures', lambda: s.get_signatures(tk.end[0], tk.end[1]))
-    header = {'ev': 'files', 'files': [{'text': jutil.enc(files[p][1]), 'starts': L.line_starts(files[p][1])}
-                                       for p in files['_order']]}
+    header = L.files_header(files['_order'], {p: [files[p][1]] for p in files['_order']}) if own else None
     return header, events, metas, counts, blocked
 
 
@@ -555,6 +577,7 @@ def pvalidate(ctx, traces, label, nthreads=8, chunk=250):
 
 # ---------------------------------------------------------------- verdicts
 def judge(ctx, rejects, traces, metas, srcs):
+    seen_hist = {}     # history shapes: one report per (shape, clauses, query method); the others are counted
     for (ti, at, whyl) in rejects:
         t, ms, src = traces[ti], metas[ti], srcs[ti]
         ev = t[at - 1] if at else None
@@ -570,10 +593,69 @@ def judge(ctx, rejects, traces, metas, srcs):
             exp = [(g['line'], g['col'], g['binds']) for g in evs['toks']]
             evs = {'ev': 'names', 'only_in_jedi': [g for g in got if g not in exp][:20],
                    'only_in_python': [g for g in exp if g not in got][:20]}
+        if shape.startswith('history/'):
+            k = (shape, why, how)
+            seen_hist[k] = seen_hist.get(k, 0) + 1
+            if seen_hist[k] > 1:
+                ctx.count('history_violations_of_an_already_reported_shape')
+                continue
+            ctx.violation('%s:%s' % (shape, why),
+                          'after the history [%s] a Name reported by %s violates %s: no single version of the file that '
+                          'existed so far has the name at the reported position, encloses it in the reported range and has '
+                          'the reported line code (name %r, points into %s)' % (
+                              (meta or {}).get('hist'), how, why, (meta or {}).get('name'), (meta or {}).get('file')),
+                          {'source': src, 'event': evs, 'meta': meta, 'at': at, 'trace': t[1:at]})
+            continue
         ctx.violation('%s:%s' % (shape, why),
                       'a Name reported by %s violates %s (name %r, points into %s)' % (
                           how, why, (meta or {}).get('name'), (meta or {}).get('file')),
                       {'source': src, 'event': evs, 'meta': meta, 'at': at})
+
+
+def hist_selftest_traces(traces, metas):
+    """Corrupted history traces that Trace_Positions must reject:
+    (1) a Name reached through an import whose get_line_code() is the line of ANOTHER version of the file (tree of one
+        version, code lines of another); (2) the same Name with the event that brought its version into existence
+        removed (the version did not exist yet); (3) a Name of a buffer's own Script judged against another version."""
+    out = []
+    have = set()
+    for t, ms in zip(traces, metas):
+        if len(t[0]['files']) != 2 or not ms[1] or 'hist' not in ms[1] or not ms[1]['hist'].startswith('W'):
+            continue           # (only the TLC histories: main.py + hmod.py)
+        vers = t[0]['files'][1]['vers']
+        for i, e in enumerate(t):
+            if e['ev'] != 'name' or e['f'] != 2:
+                continue
+            def line(v, n):
+                st = v['starts']
+                if n > len(st):
+                    return None
+                return v['text'][st[n - 1]:(st[n] if n < len(st) else len(v['text']))]
+            fits = [k + 1 for k, v in enumerate(vers) if line(v, e['line']) == e['lc']]
+            if len(fits) != 1:
+                continue
+            j = fits[0]
+            if not e['exact'] and 1 not in have:
+                for v in vers:
+                    other = line(v, e['line'])
+                    if other is not None and other != e['lc'] and other[e['col']:e['col'] + len(e['name'])] != e['name']:
+                        b = copy.deepcopy(e)
+                        b['lc'] = other
+                        out.append([t[0]] + t[1:i] + [b])
+                        have.add(1)
+                        break
+            intro = [k for k in range(1, i) if t[k]['ev'] in ('write', 'buffer') and t[k]['v'] == j]
+            if not e['exact'] and 2 not in have and j > 1 and len(intro) == 1:
+                out.append([t[0]] + [x for k, x in enumerate(t[1:i + 1], 1) if k != intro[0]])
+                have.add(2)
+            if e['exact'] and 3 not in have and len(vers) > 1:
+                b = copy.deepcopy(e)
+                b['exact'] = [1 if j != 1 else 2]
+                out.append([t[0]] + t[1:i] + [b])
+                have.add(3)
+        if len(have) == 3:
+            break
+    return out
 
 
 def run(ctx):
@@ -586,7 +668,9 @@ def run(ctx):
             'sized for ~20 min on an idle 16-core machine: exhaustive run on MaxStmts=2, MaxMods 2/1 (second statement '
             'from 5 probe templates); replayed cases are a 1/23 slice of the MaxMods 2/0 space (not of 2/1, and not every '
             'case as DESIGN 5/C17 planned); 64 corpus variants of <=9000 code points with 25 query positions each (not the '
-            'whole corpus); 20 generated projects; foreign files >16000 code points skipped'
+            'whole corpus); 20 generated projects; foreign files >16000 code points skipped; histories: exhaustive on 7 versions x '
+            '3 mtimes x 4 events and on 4 versions x 2 mtimes x 6 events, about 1/16 of the complete 4-event histories replayed, '
+            '28 random histories of 12 events over the generated project'
             + ('; VERIF_C17_REDUCED=1: exhaustive MaxMods 2/0, slice 1/61, 40 corpus variants, 10 projects' if reduced else ''))
     # case emission for leg 2 runs concurrently with leg 1 (independent TLC processes)
     box = {}
@@ -605,6 +689,28 @@ def run(ctx):
 
     em = threading.Thread(target=emit)
     em.start()
+    # PositionsHist (histories of versions of a project file): exhaustive run, what-if run and case emission, in a
+    # thread of their own next to leg 1
+    hbox = {}
+    hb = (7, 2, 4) if quick else (7, 3, 4)       # NVer, MaxT, MaxEv
+    hmod_ = 12 if quick else 8 if reduced else 4      # (of the quarter of the prefixes the emission run explores)
+
+    def hist_tlc():
+        try:
+            cfg = H.write_cfg(ctx, 'hist_mc.cfg', *hb)
+            hbox['mc'] = run_tlc('PositionsHist', cfg, workers=6, timeout=1500)
+            cfg = H.write_cfg(ctx, 'hist_whatif.cfg', *hb, fresh=True, invs=['OneVersion'])
+            hbox['whatif'] = run_tlc('PositionsHist', cfg, workers=2, timeout=600)
+            cfg = H.write_cfg(ctx, 'hist_emit.cfg', *hb, mod=hmod_, rem=ctx.seed % hmod_, invs=[], emit=True)
+            hbox['emit'] = run_tlc('PositionsHist', cfg, workers=1, timeout=2400)
+            if not quick:
+                cfg = H.write_cfg(ctx, 'hist_deep.cfg', 4, 2, 5 if reduced else 6)
+                hbox['deep'] = run_tlc('PositionsHist', cfg, workers=8, timeout=2400)
+        except BaseException as e:  # noqa
+            hbox['err'] = e
+
+    ht = threading.Thread(target=hist_tlc)
+    ht.start()
     # ---- 1. Design |= Reference, exhaustive
     stmts, m1, m2 = (2, 1, 0) if quick else (2, 2, 0) if reduced else (2, 2, 1)
     second = ALL_TPLS if quick else PROBE_TPLS
@@ -687,6 +793,84 @@ def run(ctx):
         for k, v in r['blocked'].items():
             blocked[k] = blocked.get(k, 0) + v
 
+    # ---- H. histories of versions of a project file (PositionsHist.tla)
+    ht.join()
+    if 'err' in hbox:
+        raise hbox['err']
+    hres = hbox['mc']
+    ctx.add_tlc(hres, 'PositionsHist Design|=Reference exhaustive NVer=%d MaxT=%d MaxEv=%d' % hb)
+    if hres.violated:
+        raise MachineryError('PositionsHist.tla: Design violates Reference (%s); replay the counterexample, then model '
+                             'the code as it is / record the finding:\n%s' % (hres.violated, hres.trace[-1:]))
+    if hres.distinct < (100000 if quick else 400000):
+        raise MachineryError('vacuity: only %d history states' % hres.distinct)
+    if 'deep' in hbox:
+        ctx.add_tlc(hbox['deep'], 'PositionsHist Design|=Reference exhaustive, longer histories of 4 versions')
+        if hbox['deep'].violated:
+            raise MachineryError('PositionsHist.tla (deep): Design violates Reference (%s):\n%s'
+                                 % (hbox['deep'].violated, hbox['deep'].trace[-1:]))
+    hw = hbox['whatif']
+    ctx.add_tlc(hw, 'what-if FreshLines=TRUE (OneVersion must be violated)')
+    if hw.violated != 'OneVersion':
+        raise MachineryError('what-if FreshLines=TRUE: TLC found no OneVersion counterexample (%s); the history model '
+                             'lost its sensitivity to a tree and code lines of different versions' % hw.violated)
+    main_text, vers = H.versions_of(hbox['emit'])
+    hcs = cases(hbox['emit'])
+    ctx.add_tlc(hbox['emit'], 'history emission (1/4 of the two-event prefixes; of their completions: slice %d mod %d; '
+                'served-from-old-disk-entry mod %d, ending in a buffer mod %d)' % (ctx.seed % hmod_, hmod_, max(1, hmod_ // 8), hmod_ * 8))
+    if len(hcs) < (300 if quick else 1000 if reduced else 2000):
+        raise MachineryError('too few histories emitted: %d' % len(hcs))
+    wv = hw.trace[-1]['vars']
+    hcs.append({'hist': wv['hist'], 'reps': wv['reps'], 'whatif': True})     # the what-if counterexample is replayed too
+    ctx.log('replaying %d TLC histories' % len(hcs))
+    hbase = ctx.sub('histories')
+    hr = jutil.pmap(H.replay_history, [(c, hbase, 'h%d' % i, main_text, vers, 'fun') for i, c in enumerate(hcs)])
+    jutil.check_worker_errors(hr)
+    hsamples = []
+    whatif_index = None
+    for c, r in zip(hcs, hr):
+        ctx.count('histories_replayed')
+        if c.get('whatif'):
+            whatif_index = len(traces)
+        else:
+            for d in r['drift']:
+                ctx.drift(d)
+        if len(hsamples) < 4 and 'cached-buffer' in str(r['sample']['design']):
+            hsamples.append(r['sample'])
+        traces.append(r['trace'])
+        metas.append(r['metas'])
+        srcs.append({'history': r['history'], 'main.py': main_text,
+                     'hmod.py versions': {i + 1: v for i, v in enumerate(vers)}})
+        for k, v in r['counts'].items():
+            ctx.count(k, v)
+        for k, v in r['blocked'].items():
+            blocked[k] = blocked.get(k, 0) + v
+    ctx.coverage['history_samples'] = hsamples
+    for k, least in (('hist_query_src:cached-buffer', 20), ('hist_query_src:cached-old-disk', 20),
+                     ('hist_query_src:fresh', 20), ('hist_query_src:not-loaded', 5), ('hist_buffer_events', 20)):
+        if ctx.coverage.get(k, 0) < least:
+            raise MachineryError('vacuity: %s = %s in the replayed histories' % (k, ctx.coverage.get(k, 0)))
+    if ctx.coverage.get('hist_names_into_hmod', 0) < (1500 if quick else 4000 if reduced else 8000):
+        raise MachineryError('vacuity: only %s Names reported into hmod.py' % ctx.coverage.get('hist_names_into_hmod', 0))
+    # random histories over the generated project
+    ctx.log('random histories over a generated project')
+    hp = jutil.pmap(H.history_scenario, [(ctx.seed * 977 + i, hbase, 7 if quick else 12)
+                                         for i in range(6 if quick else 14 if reduced else 28)], chunksize=1)
+    jutil.check_worker_errors(hp)
+    for r in hp:
+        ctx.count('history_scenarios')
+        ctx.count('history_scenario_versions', r['nversions'])
+        traces.append(r['trace'])
+        metas.append(r['metas'])
+        srcs.append({'buffer': r['path'], 'history': r['history']})
+        for k, v in r['counts'].items():
+            ctx.count(k, v)
+        for k, v in r['blocked'].items():
+            blocked[k] = blocked.get(k, 0) + v
+    if ctx.coverage.get('hist_names_into_versioned_files', 0) < 100:
+        raise MachineryError('vacuity: random histories reported only %s Names into versioned files'
+                             % ctx.coverage.get('hist_names_into_versioned_files', 0))
+
     # ---- 3b. corpus, re-encoded
     ctx.log('corpus driver')
     files = jutil.corpus_files(rng=ctx.rng)
@@ -719,6 +903,8 @@ def run(ctx):
     ctx.log('validating %d traces, %d records' % (len(traces), nev))
     verdicts, rejects = pvalidate(ctx, traces, 'Trace_Positions')
     ctx.count('records_rejected', len(rejects))
+    ctx.coverage['whatif_FreshLines'] = {'violated': hw.violated, 'counterexample': srcs[whatif_index]['history'],
+                                         'reproduced_on_code': any(r[0] == whatif_index for r in rejects)}
     judge(ctx, rejects, traces, metas, srcs)
 
     # ---- 4. binding self-test
@@ -726,7 +912,7 @@ def run(ctx):
     for t in traces:
         names = [i for i, e in enumerate(t) if e['ev'] == 'name' and e['ds'] and e['f'] == 1]
         enum = [i for i, e in enumerate(t) if e['ev'] == 'names' and len(e['got']) > 1]
-        if names and enum and len(t[0]['files'][0]['text']) < 3000:
+        if names and enum and len(t[0]['files'][0]['vers'][0]['text']) < 3000:
             i = names[0]
             for field, fn in (('col', lambda e: e.__setitem__('col', e['col'] + 1)),
                               ('line', lambda e: e.__setitem__('line', e['line'] + 1)),
@@ -742,10 +928,14 @@ def run(ctx):
             b[1]['got'][0]['isdef'] = not b[1]['got'][0]['isdef']
             bad.append(b)
             b = [copy.deepcopy(t[0])]
-            if len(b[0]['files'][0]['starts']) > 1:
-                b[0]['files'][0]['starts'][1] += 1
+            if len(b[0]['files'][0]['vers'][0]['starts']) > 1:
+                b[0]['files'][0]['vers'][0]['starts'][1] += 1
                 bad.append(b)
             break
+    nbase = len(bad)
+    bad += hist_selftest_traces(traces, metas)
+    if len(bad) < nbase + 3:
+        raise MachineryError('binding self-test: no suitable history trace (%d)' % (len(bad) - nbase))
     if not bad:
         raise MachineryError('binding self-test: no suitable trace')
     n0 = ctx.coverage['traces_validated_against_impl']
@@ -760,5 +950,9 @@ def run(ctx):
         'for keyword-parameter completions the trailing "=" of Completion.name is a completion symbol, not text',
         'Names without identifier token (module names at (1,0), <lambda>), in compiled/synthetic modules or outside '
         'the project are out of scope',
-        'project files are read with newline="" and judged against their on-disk text']
+        'project files are read with newline="" and judged against their on-disk text; files rewritten or held as '
+        'unsaved buffer during a history are judged against the versions that existed so far (one of them must fit '
+        'entirely), the Script of a buffer against exactly that buffer',
+        'file mtimes in histories are set explicitly with os.utime (base 10^9 + t), so the parser cache comparison '
+        'mtime <= change_time is deterministic']
     return None
